@@ -88,6 +88,8 @@ const C10_JUNK: &[&str] = &[
     // long non-ASCII values (whatever is done with the text of an ignored attribute must respect
     // character boundaries)
     "alias = \"ありがとうございますありがとうございますありがとうございますありがとうございます\"",
+    "alias = \"xありがとうございますありがとうございますありがとうございますありがとうございます\"",
+    "alias = \"xxありがとうございますありがとうございますありがとうございますありがとうございます\"",
     "expecting = \"eine Größenangabe in Metern, größer als null und höchstens fünfhundert – bitte prüfen\"",
     "deserialize_with = \"a::b::c::d::e::f::g::h::i::j::k::l::m::n::o::p::q::r::s::t::u::v::ünï::ß\"",
 ];
